@@ -1,0 +1,26 @@
+// SPDX-FileCopyrightText: 2020-present Open Networking Foundation <info@opennetworking.org>
+//
+// SPDX-License-Identifier: Apache-2.0
+
+//go:build verif
+
+package proposal
+
+import (
+	"github.com/onosproject/onos-config/pkg/pluginregistry"
+	"github.com/onosproject/onos-config/pkg/southbound/gnmi"
+	"github.com/onosproject/onos-config/pkg/store/topo"
+	"github.com/onosproject/onos-config/pkg/store/v2/configuration"
+	proposalstore "github.com/onosproject/onos-config/pkg/store/v2/proposal"
+	"github.com/onosproject/onos-lib-go/pkg/controller"
+)
+
+// NewReconcilerForVerif returns the proposal reconciler on its own, without the controller runtime
+func NewReconcilerForVerif(topo topo.Store, conns gnmi.ConnManager, proposals proposalstore.Store, configurations configuration.Store, pluginRegistry pluginregistry.PluginRegistry) controller.Reconciler {
+	return &Reconciler{conns: conns, topo: topo, proposals: proposals, configurations: configurations, pluginRegistry: pluginRegistry}
+}
+
+// NewWatchersForVerif returns the proposal controller's watchers, in the order NewController registers them
+func NewWatchersForVerif(proposals proposalstore.Store, configurations configuration.Store) []controller.Watcher {
+	return []controller.Watcher{&Watcher{proposals: proposals}, &ConfigurationWatcher{configurations: configurations}}
+}
